@@ -62,6 +62,7 @@ StrCI     == {"a", "A", "b", "C"}
 TokCIt    == {"a", "B", "s", "*", "?"}
 MacCIt    == {"[a-c]", "[!b]", "[[:upper:]]", "[![:lower:]]"}
 StrCIt    == {"a", "A", "b", "S", LongS}
+StrCIq    == {"a", "B", "S", LongS}
 TokCIw    == {"k", aUml, Sharp, sigma, IDot, "*", "?"}
 MacCIw    == {"[i-k]", "[![:alpha:]]", "[[:lower:]1]"}
 StrCIw    == {"K", Kelvin, AUml, SharpU, Sigma, sigmaF, IDot, "i", "1"}
@@ -102,6 +103,8 @@ StrWidet  == {"a", aUml, Hira, Emoji, Acute, "."}
 TokErr    == {"[", "]"}
 MacErr    == {"a-", "-a", "[:digit:]", "[:nothing:]", "[..]", "[==]", "[.a.]"}
 StrErr    == {"a", "1", "-"}
+TokErrQ   == {"]", "-a", "a"}
+MacErrQ   == {"[[:digit:]", "[[:nothing:]", "[[..]", "[[==]", "[a-[:digit:]", "[[.a.]", "[[:alpha:]"}
 \* the shell
 TokSh     == {"a", "A", ".", "*", "?", aUml}
 LitSh     == {"*", "?", "+", "."}
